@@ -32,6 +32,7 @@ type op39 struct {
 type sys39 struct {
 	cfg      *sysConfig
 	pool     *vmPool
+	memo     *memo
 	genesis  *world
 	nKeys    int
 	maxEpoch uint32
@@ -43,9 +44,10 @@ type sys39 struct {
 
 type st39 struct {
 	y       *sys39
-	v       *sysVM
-	lowered bool // updateConfigMaxNodes lowered the maximum somewhere in this history
-	pending int  // end-of-epoch step: validators unstaked and not yet replaced from the queue
+	hist    []byte // operations recorded so far (see memo in world.go)
+	v       *sysVM // nil until the state is materialised
+	lowered bool   // updateConfigMaxNodes lowered the maximum somewhere in this history
+	pending int    // end-of-epoch step: validators unstaked and not yet replaced from the queue
 	last    string
 }
 
@@ -85,12 +87,60 @@ func newSys39(cfg *sysConfig, nKeys int, maxEpoch uint32) *sys39 {
 	v.deploy(vm.DelegationManagerSCAddress)
 	y.genesis = w
 	y.pool = &vmPool{cfg: cfg}
+	y.memo = newMemo(8192)
 	return y
 }
 
-func (y *sys39) init() *st39 {
-	w := y.genesis.clone()
-	return &st39{y: y, v: y.pool.get(w)}
+func (y *sys39) init() *st39 { return &st39{y: y} }
+
+type snap39 struct {
+	w       *world
+	lowered bool
+	pending int
+	last    string
+}
+
+// ensure materialises the state of the recorded history on the real contracts.
+func (s *st39) ensure() {
+	if s.v != nil {
+		return
+	}
+	y := s.y
+	n := len(s.hist)
+	start := 0
+	var w *world
+	for p := n; p > 0 && w == nil; p-- {
+		if sn, ok := y.memo.get(s.hist[:p]).(*snap39); ok {
+			w, s.lowered, s.pending, s.last, start = sn.w.clone(), sn.lowered, sn.pending, sn.last, p
+		}
+	}
+	if w == nil {
+		w = y.genesis.clone()
+	}
+	s.v = y.pool.get(w)
+	for i := start; i < n; i++ {
+		s.apply(int(s.hist[i]))
+		if i+1 >= n-1 {
+			y.memo.put(s.hist[:i+1], &snap39{w: s.v.w.clone(), lowered: s.lowered, pending: s.pending, last: s.last})
+		}
+	}
+}
+
+func (s *st39) close() {
+	if s.v != nil {
+		s.y.pool.put(s.v)
+		s.v = nil
+	}
+}
+
+// do records the operation; it is executed when the state is observed (or at once when the
+// instance is already materialised).
+func (s *st39) do(o int) (string, string) {
+	s.hist = append(s.hist, byte(o))
+	if s.v != nil {
+		s.apply(o)
+	}
+	return "", ""
 }
 
 func (s *st39) staked(k int) *ssc.StakedDataV2_0 {
@@ -106,6 +156,7 @@ func (s *st39) staked(k int) *ssc.StakedDataV2_0 {
 func (s *st39) stakingV2On() bool { return s.v.w.epoch >= s.y.cfg.enable.StakingV2EnableEpoch }
 
 func (s *st39) enabled(o int) bool {
+	s.ensure()
 	op := s.y.ops[o]
 	if s.pending > 0 {
 		// inside the end-of-epoch step of systemSCProcessor: no user transaction interleaves
@@ -131,7 +182,7 @@ func rc(out *vmcommon.VMOutput) string {
 	return out.ReturnCode.String()
 }
 
-func (s *st39) do(o int) (string, string) {
+func (s *st39) apply(o int) {
 	op := s.y.ops[o]
 	y := s.y
 	var out *vmcommon.VMOutput
@@ -192,10 +243,9 @@ func (s *st39) do(o int) (string, string) {
 	case "epoch":
 		s.v.setEpoch(s.v.w.epoch + 1)
 		s.last = "epoch"
-		return "", ""
+		return
 	}
 	s.last = op.kind + ":" + rc(out) + extra
-	return "", ""
 }
 
 // ---- oracle ------------------------------------------------------------------------------
@@ -278,6 +328,7 @@ func (s *st39) dump(v *view39) string {
 }
 
 func (s *st39) check() (string, string) {
+	s.ensure()
 	v := s.view()
 	w := s.v.w
 	fail := func(sig, what string) (string, string) {
@@ -366,6 +417,7 @@ func (s *st39) check() (string, string) {
 }
 
 func (s *st39) key() string {
+	s.ensure()
 	var sb strings.Builder
 	s.v.w.canon(&sb)
 	fmt.Fprintf(&sb, "|low=%v|pend=%d", s.lowered, s.pending)
@@ -375,6 +427,7 @@ func (s *st39) key() string {
 // non-trivial: the waiting list is non-empty; distinguished by its shape (length, position of
 // the last-jailed marker, staked count, jailed keys).
 func (s *st39) nontrivial() string {
+	s.ensure()
 	v := s.view()
 	if v.head.Length == 0 {
 		return ""
@@ -440,6 +493,7 @@ func runC39(c *mc.Ctx) {
 			for _, y := range systems {
 				runNames(c, names, y.menu, y.cfg.name, func() (func(int) (string, string), func(int) bool) {
 					s := y.init()
+					s.ensure()
 					return func(o int) (string, string) {
 						if sg, d := s.do(o); sg != "" {
 							return sg, d
@@ -462,8 +516,8 @@ func runC39(c *mc.Ctx) {
 			Check:      func(s *st39) (string, string) { return s.check() },
 			Key:        func(s *st39) string { return s.key() },
 			Nontrivial: func(s *st39) string { return s.nontrivial() },
-			Outcome:    func(s *st39) string { return s.last },
-			Close:      func(s *st39) { y.pool.put(s.v); s.v = nil },
+			Outcome:    func(s *st39) string { s.ensure(); return s.last },
+			Close:      func(s *st39) { s.close() },
 		}, depth)
 		c.Set("states["+y.cfg.name+"]", st.States)
 		c.Set("transitions["+y.cfg.name+"]", st.Transitions)
